@@ -39,7 +39,7 @@ CHECKS.update({
         "level": "model_checking",
         "text": "spec/PlacePacking.tla gives the abstraction function of the packed u16, the abstract get/set algebra and a concrete model of the four setters; TLC checks the refinement and the "
                 "get/set/frame/last-gone/no-residue laws for every packed value x 80 setter calls, and the harness checks that the real accessors compute exactly the concrete model on the same values "
-                "(all 2^16+1 in the thorough tier), plus the Segment-level feature laws against Features.tla.",
+                "(all 2^16+1 in the thorough tier), plus the Segment-level feature laws against Features.tla and the match equation node_match(n, v) <=> get_node(n) = v on the absent value, zero, the stored value and its neighbours.",
         "note": "Trusted: TLC; the harness writes raw packed values through Place's public DerefMut. Quick tier enumerates all well-formed values and a seeded 1/16 of the ill-formed ones.",
         "technique": "TLA+ refinement (packed word -> abstract place) model-checked exhaustively by TLC; bit-exact spec->impl replay of the accessor calls",
     },
@@ -55,7 +55,7 @@ CHECKS.update({
         "level": "model_checking",
         "text": "MC_Pipeline proves per-line independence, order and the first-error rule of the word-major loop nest for every rule function; TLC enumerates every permutation and sublist of small word lists, "
                 "replayed with real rules; and the hook events of apply_rule_groups are validated step by step against the loop-nest machine of tv/TV_Pipeline with a history variable forcing "
-                "(rule, word) -> result to be a function across the list run, a permuted run and the singleton runs (no cross-word data flow).",
+                "(rule, word) -> result to be a function across the list run, a permuted run and the singleton runs (no cross-word data flow); the recorded workloads include generated rules (with alphas) and the words assembled from their elements, lines with leading / doubled blanks, notation twins, every input spelling the manual allows, and all ordered pairs of small word pools.",
         "note": BASE_NOTE + " 'First failing word' is read per pipeline phase (all words are parsed before any rule is applied), see DESIGN.md C11.",
         "technique": "TLC model checking of the run loop for all rule functions; spec->impl schedule replay; impl->spec trace validation of loop events (TV_Pipeline)",
     },
@@ -82,14 +82,14 @@ CHECKS.update({
         "level": "model_checking",
         "text": "mc/MC_Scan proves progress and termination of the reference machine. Every call of run / get_trace_string on rules from the Grammar generator (TLC), token-level mutations, noise, and on alias "
                 "strings is executed with the loop-head step counter of the hooks; one record per call (outcome, loop states of the two main loops per sub-rule application) is validated by TLC (C02Law: "
-                "returned Ok|Err, tracer returned, no main-loop state repeated). Open defects are listed as known findings with signatures evaluated on the failing vector.",
+                "returned Ok|Err, tracer returned, no main-loop state repeated). Half of the words are assembled from the rule's own elements (whole, cut short at either end, doubled); two systematic strata cover the length bookkeeping of multi-element substitutions (9 length modifiers x 4 second outputs x 6 shapes x 10 words) and the alias grammar (every element shape x 15 modifier kinds incl. alphas x every replacement shape, both directions). Open defects are listed as known findings with signatures evaluated on the failing vector.",
         "note": BASE_NOTE + " Step budget = min(400 (|w|+2)^(1+e) (|r|+2), 20000) ticks; the largest tick count of a returning call is recorded in evidence (hundreds). Noise is produced by the harness, not by TLC.",
         "technique": "TLC model checking of progress on the reference machine; impl->spec validation of tick traces and outcomes of generated / mutated / noise inputs",
     },
     "C06": {
         "level": "model_checking",
         "text": "On the reference machine NoMatchStutter is model-checked. The Grammar generator (TLC) produces rules of the full documented grammar with a literal absent from every word planted at the "
-                "first segment position, at the end of the input (after variable references, ellipses, boundaries) or in every context environment; a systematic sweep plants it at every position of 14 "
+                "first segment position, at the end of the input (after variable references, ellipses, boundaries) or in every context environment, at any position of the input, inside syllable structures (front or back), at either end of either side of an insertion context, bare or wearing a modifier block - the words hold near-misses of the planted literal (qʷ, ɢ, qʰ ...) and words assembled from the rule's own elements; a systematic sweep plants it at every position of 14 "
                 "input templates and 8 context templates; blank and comment-only lines are added. Every application is recorded structurally and TLC (C06Law) requires after = before.",
         "note": BASE_NOTE,
         "technique": "TLC model checking of the stutter lemma + impl->spec validation of structural before/after records of planted rules",
@@ -106,14 +106,14 @@ CHECKS.update({
         "level": "model_checking",
         "text": "WordOK (>= 1 syllable, no empty syllable, tone <= 4 non-zero digits, bundle bits within the defined features, packed place well-formed) is an invariant of the reference machine and is "
                 "evaluated by TLC on the word after EVERY sub-rule of histories of up to 6 rules (generated, repository tests, shipped project), plus two systematic strata: every cardinal with its place "
-                "sub-nodes removed one rule at a time in every order, and rules that can consume a whole tiny word.",
+                "sub-nodes removed one rule at a time in every order, rules that can consume a whole tiny word, and the tones of neighbouring syllables joined by eight boundary-removing rule shapes for every ordered pair of tones of 1-4 digits.",
         "note": BASE_NOTE,
         "technique": "TLC invariant on the reference machine + impl->spec validation of every intermediate word (raw bits included)",
     },
     "C09": {
         "level": "model_checking",
         "text": "spec/Text.tla contains the renderer and the longest-match reader; TLC evaluates both on every target bundle of the domain and the harness checks that the real renderer and the real word "
-                "parser agree with them and that reading back gives the same segment; assembled words (length, stress, tone, boundaries) are recorded and TLC (C09Law) requires parse(render(w)) = w and "
+                "parser agree with them and that reading back gives the same segment; assembled words (length, stress, tone, boundaries; also segments without a spelling, which must print as the replacement character) and the words that generated rules produce are recorded and TLC (C09Law) requires parse(render(w)) = w and "
                 "the fixed-point corollary.",
         "note": BASE_NOTE + " Quick: every base, a seeded third of base+1 diacritic, feature changes on a seeded 1/128; thorough adds two diacritics.",
         "technique": "TLA+ renderer/reader model evaluated by TLC, spec->impl binding; impl->spec validation of word round trips",
@@ -121,7 +121,7 @@ CHECKS.update({
     "C12": {
         "level": "model_checking",
         "text": "The manual's expansions are operators of spec/Grammar.tla (broadcast of condensed rules, MirrorSeq, group matrices, ExpandOptSide, MetAsVars); TLC generates (shorthand, expansion) pairs "
-                "for the five shorthands inside rules of the full grammar and the real interpreter must give the same structural word for both on every word.",
+                "for the five shorthands inside rules of the full grammar and the real interpreter must give the same structural word for both on every word (random words and words assembled from the rules' own elements); condensed rules carry context and exception blocks broadcast independently; the group letters are additionally run on a word around EVERY cardinal of the inventory (9 letters x 3 positions x 365 x 2).",
         "note": BASE_NOTE,
         "technique": "TLA+ expansion operators + spec->impl replay of shorthand/expansion pairs (implementation against implementation, structurally)",
     },
@@ -149,7 +149,7 @@ CHECKS.update({
     },
     "C17": {
         "level": "fault_enumeration",
-        "text": "A frozen catalogue of syntax, late-syntax, runtime, word and alias faults (calibrated per run) is planted at every (group, line) of every project shape; TLC enumerates the cases and - from the "
+        "text": "A frozen catalogue of syntax, late-syntax, runtime, word and alias faults (calibrated per run; it reaches 90 of the library's error variants) is planted at every (group, line) of every project shape; TLC enumerates the cases and - from the "
                 "pipeline's phase order - which of two faults is reported. The error is formatted under catch_unwind and its location and caret span are checked.",
         "note": "Trusted: the catalogue spec/frozen/faults.json; fillers never match the fixed word. Quick: shapes <= 2x2 single faults; thorough: 3x3 and a seeded 1/97 of all ordered pairs.",
         "technique": "fault enumeration: TLC enumerates (shape, position, fault[, second fault]) with the reported fault predicted from the phase order; replay on the real run and formatters",
